@@ -204,4 +204,45 @@ def modfGo (f : Nat) : ModfOut :=
 
 def isNaNOut (o : ModfOut) : Bool := isNaN o.int
 
+/-! ### scaling and decomposition — math.go:135-143 `Ldexp`, upstream frexp.go / ldexp.go -/
+
+/-- math.go:135-143 `Ldexp`: for -1024 < exp < 1024 `if frac == 0 { return frac }; return frac * Math.pow(2, exp)`.
+    2^exp is then finite, positive and non-zero, so NaN and ±Inf pass through; the product of a NORMAL frac with 2^exp is
+    exact whenever the result is normal (exponent field adds). `none`: subnormal operand or result, overflow (IEEE
+    rounding — not modelled) or |exp| ≥ 1024 (delegated to the upstream `ldexp`, compared compiled-vs-native only). -/
+def ldexp (frac : Nat) (e : Int) : Option Nat :=
+  if -1024 < e ∧ e < 1024 then
+    if isZero frac then some frac
+    else if isNaN frac then some nanBits
+    else if isInf frac then some frac
+    else if expo frac ≠ 0 ∧ 1 ≤ (expo frac : Int) + e ∧ (expo frac : Int) + e ≤ 2046 then
+      some (sign frac * two63 + ((expo frac : Int) + e).toNat * two52 + mant frac)
+    else none
+  else none
+
+/-- upstream ldexp.go `ldexp` on a zero, NaN, infinite or NORMAL frac (normalize is then the identity), any exp:
+    `exp += e(frac)`; underflow below -1075 gives ±0, overflow above 1023 gives ±Inf, a normal result replaces the
+    exponent field; `none`: subnormal frac or denormal result (one rounding, not modelled) -/
+def ldexpGo (frac : Nat) (e : Int) : Option Nat :=
+  if isZero frac then some frac
+  else if isNaN frac then some nanBits
+  else if isInf frac then some frac
+  else if expo frac = 0 then none
+  else
+    let ex := (expo frac : Int) - 1023 + e
+    if ex < -1075 then some (sign frac * two63)
+    else if ex > 1023 then some (sign frac * two63 + 2047 * two52)
+    else if ex < -1022 then none
+    else some (sign frac * two63 + (ex + 1023).toNat * two52 + mant frac)
+
+/-- upstream frexp.go `frexp` (compiled by GopherJS through the overridden Float64bits/Float64frombits; the override
+    `Frexp` just calls it): ±0, ±Inf, NaN give (f, 0); a subnormal is first normalised (`f * (1<<52)`, exact);
+    the fraction gets exponent field 1022 (value in [1/2, 1)) -/
+def frexp (f : Nat) : Nat × Int :=
+  if isZero f || isInf f || isNaN f then (f, 0)
+  else if expo f ≠ 0 then (sign f * two63 + 1022 * two52 + mant f, (expo f : Int) - 1022)
+  else
+    let k := Nat.log2 (mant f)                       -- mant ≠ 0: f = mant·2^-1074, leading bit at position k
+    (sign f * two63 + 1022 * two52 + (mant f - 2 ^ k) * 2 ^ (52 - k), (k : Int) - 1073)
+
 end GV.FloatBits
